@@ -355,6 +355,11 @@ class StreamReader:
             set_result(waiter, None)
 
     async def _wait(self, func_name: str) -> None:
+        # A data-less wake-up (end of an HTTP chunk) may be followed by
+        # set_exception() before the reader runs: nobody would wake us again.
+        if self._exception is not None:
+            raise self._exception
+
         if not self._protocol.connected:
             raise RuntimeError("Connection closed.")
 
